@@ -56,18 +56,12 @@ func parseTXT(txt []string) (model string) {
 	}
 
 	for _, v := range txt {
-		a := strings.Split(v, "=")
+		a := strings.SplitN(v, "=", 2) // RFC 6763 6.4: the value is everything after the first '='
 		if len(a) < 2 {
 			continue
 		}
-		switch a[0] {
-		case "model":
-			return a[1]
-		case "ty":
-			return a[1]
-		case "DvTy": // iphone and ipad
-			return a[1]
-		case "md": // google chromecast
+		switch strings.ToLower(a[0]) { // RFC 6763 6.4: keys are case-insensitive
+		case "model", "ty", "dvty", "md": // dvty: iphone and ipad; md: google chromecast
 			return a[1]
 		}
 	}
